@@ -111,7 +111,7 @@ Definition changed_monitored (lo hi:R) (rising falling:bool) : Prop :=
   (0 < lo /\ hi <= 0 /\ falling = true) \/ (lo < 0 /\ 0 <= hi /\ rising = true).
 
 Lemma monitored_change_R lo hi r f :
-  monitored_change (sgn ROps lo) (sgn ROps hi) r f = true <-> changed_monitored lo hi r f.
+  monitored_change (sgnT ROps lo) (sgnT ROps hi) r f = true <-> changed_monitored lo hi r f.
 Proof.
   unfold monitored_change, changed_monitored.
   destruct (sgn_cases lo) as [[A ->]|[[A ->]|[A ->]]]; destruct (sgn_cases hi) as [[B ->]|[[B ->]|[B ->]]];
@@ -127,7 +127,7 @@ Lemma candidate_listed_iff viable tLow eLow tHigh eHigh bias mw i r f :
 Proof.
   intros Hm. rewrite fec_cands, map_map. simpl. rewrite map_id, filter_In.
   unfold has_seen, seenAt. rewrite Hm. rewrite negb_true_iff, N.eqb_neq.
-  pose proof (classify_exhaustive (sgn ROps (nth i eLow 0)) (sgn ROps (nth i eHigh 0)) r f (sgn_in _) (sgn_in _)) as [H _].
+  pose proof (classify_exhaustive (sgnT ROps (nth i eLow 0)) (sgnT ROps (nth i eHigh 0)) r f (sgn_in _) (sgn_in _)) as [H _].
   cbn [n0 ROps]. rewrite H, monitored_change_R. tauto.
 Qed.
 
@@ -145,7 +145,7 @@ Record linv (t0 t1:R) (e0 e1:list R) (orig:list (@cand R)) (s:@lstate R) : Prop 
   li_ne : l_cands s <> [];
   li_seen : forall c, In c (l_cands s) -> seen (l_eLow s) (l_eHigh s) (c_idx c) <> 0%N;
   li_orig : forall c, In c (l_cands s) -> exists c0, In c0 orig /\ c_idx c0 = c_idx c /\ c_tr c0 = c_tr c;
-  li_sign : forall c, In c (l_cands s) -> sgn ROps (nth (c_idx c) (l_eLow s) 0) = sgn ROps (nth (c_idx c) e0 0);
+  li_sign : forall c, In c (l_cands s) -> sgnT ROps (nth (c_idx c) (l_eLow s) 0) = sgnT ROps (nth (c_idx c) e0 0);
   li_est : forall c, In c (l_cands s) -> l_tLow s < c_est c < l_tHigh s;
   li_early : l_tLow s < l_earliest s < l_tHigh s /\ In (l_earliest s) (map c_est (l_cands s));
   li_narrow : mw <= l_narrowest s /\ forall c, In c (l_cands s) -> l_narrowest s <= Rmax mw (window_of (c_idx c));
@@ -175,14 +175,14 @@ Qed.
 
 (** expected_report depends only on the sign before; used to show the reported transitions stay the original ones *)
 Lemma tr_of_seen eLow eHigh i : seen eLow eHigh i <> 0%N ->
-  toReport (seen eLow eHigh i) = expected_report (sgn ROps (nth i eLow 0)).
+  toReport (seen eLow eHigh i) = expected_report (sgnT ROps (nth i eLow 0)).
 Proof.
   intros H. unfold seenAt in *. destruct (mask_of i) as [r [f Hm]]. rewrite Hm in *.
   apply seen_before_only; auto using sgn_in.
 Qed.
 
 Definition orig_ok (t0 t1:R) (e0 e1:list R) (orig:list (@cand R)) : Prop :=
-  forall c, In c orig -> seen e0 e1 (c_idx c) <> 0%N /\ c_tr c = expected_report (sgn ROps (nth (c_idx c) e0 0)).
+  forall c, In c orig -> seen e0 e1 (c_idx c) <> 0%N /\ c_tr c = expected_report (sgnT ROps (nth (c_idx c) e0 0)).
 
 (** one iteration never hits the assert and preserves the invariant; afterwards the report time is not strictly
     inside the bracket, and the bracket shrank to one side of tMid *)
@@ -213,7 +213,7 @@ Proof.
         { unfold loF. apply filter_In. split; [unfold viable; apply in_map; auto|]. unfold has_seen. rewrite E0. auto. }
         rewrite Elo in H. destruct H. }
     assert (Hup: forall c, In c (l_cands s) -> seen (e tMid) (l_eHigh s) (c_idx c) <> 0%N /\
-                  sgn ROps (nth (c_idx c) (e tMid) 0) = sgn ROps (nth (c_idx c) (l_eLow s) 0)).
+                  sgnT ROps (nth (c_idx c) (e tMid) 0) = sgnT ROps (nth (c_idx c) (l_eLow s) 0)).
     { intros c Hc. pose proof (li_seen _ _ _ _ _ _ I c Hc) as Hs. specialize (Hall c Hc).
       unfold seenAt in *. destruct (mask_of (c_idx c)) as [r [f Hm]]. rewrite Hm in *.
       apply split_transition; auto using sgn_in. }
